@@ -58,6 +58,23 @@ def run(tier, replay_file=None):
             for g in ([] if compress else GRIDS[1:] if (not quick or n == 1) else [GRIDS[1]]):
                 if not replay_set(R, hs, compress, known_total, grid=g):
                     break
+    # every restore path followed by a read, enumerated: Start, Begin, two stepping requests, then SaveState+LoadState / Crash /
+    # a sweep (Tick), then session-results or a further step - for both formats of the state file
+    SHAPE = ('MC_Restore == LET n == Len(hist\') h == hist\'[n] IN\n'
+             '   /\\ (n = 1 => h.op = "Start") /\\ (n = 2 => h.op = "Begin" /\\ h.status = 200)\n'
+             '   /\\ (n \\in {3, 4} => h.op \\in {"Step", "Steps"} /\\ h.status = 200)\n'
+             '   /\\ (n = 5 => h.op \\in {"Crash", "LoadState", "Tick"})\n'
+             '   /\\ (n = 6 => h.op \\in {"Results", "Step"})\n')
+    import random as _r
+    for compress in (False, True):
+        c = consts('{"i1"}', 4, DEV, compress, ops='{"Start","Begin","Step","Steps","Results","Tick","LoadState","Crash"}', timeouts='{2}', ticks='{3}', kv='{0,2}', sv='{0,3}')
+        c["Scen"] = '{"base"}'
+        hr, _ = gen.histories("Server", c, 6, defs=SHAPE, extra_cfg={"action_constraints": ["MC_Restore"]})
+        R.cov["restore_then_read_histories_%s" % ("compressed" if compress else "plain")] = len(hr)
+        if quick:
+            hr = _r.Random(common.seed() + int(compress)).sample(hr, min(len(hr), 120))
+        if not replay_set(R, hr, compress, known_total):
+            break
     R.cov["known_matches"] = known_total
     R.sample([{a: b for a, b in h.items() if a not in ("rows", "want", "row")} for h in hs[0]])
     f = R.findings.open_for("C19") + [e for e in R.findings.entries if e.get("status") == "open" and "C19" in e.get("also", [])]
